@@ -254,6 +254,29 @@ func monitor(cs caseSpec, o obs) *cf.Monitor {
 			}
 		}
 	}
+	// errors of a partition consumer reach Errors() when the application reads it (with room for one error the first is never dropped)
+	closeRace := false // handleError drops errors once Close has been called: an error served around a Close trigger may be dropped
+	for _, c := range cs.Calls {
+		if len(c.Trigger) > 5 && c.Trigger[:5] == "close" {
+			closeRace = true
+		}
+	}
+	if cs.ReturnErrors && cs.ReadErrors && cs.ChanBuf >= 1 && !closeRace {
+		served, read := map[int64]int{}, map[int64]int{}
+		for _, x := range o.Log {
+			switch x.K {
+			case "fetcherr":
+				served[x.P]++
+			case "err":
+				read[x.P]++
+			}
+		}
+		for p, n := range served {
+			if n > 0 && read[p] == 0 {
+				return fail("errors:not-delivered", "partition %d: %d fetch errors were reported by the consumer, none arrived on Errors() although it was read", p, n)
+			}
+		}
+	}
 	for _, p := range cs.Parts {
 		id := p.id()
 		fs, ok := firstStart[id]
